@@ -554,6 +554,10 @@ class Tr:
             # a, b = pair  /  a, _, b = triple
             t, ty, pure = self.expr(s.value, env)
             names = [e.id for e in s.targets[0].elts]
+            for i, n in enumerate(names):
+                if n == "_":
+                    self.fn.ntmp += 1
+                    names[i] = "unused%d" % self.fn.ntmp
             comp = {"StrPair": ["Str", "Str"], "Str3": ["Str", "Str", "Str"]}.get(ty)
             if comp is None or len(comp) != len(names):
                 raise Unsupported("assignment " + _src(s))
@@ -810,7 +814,7 @@ def _assigned(stmts):
                     if isinstance(e, ast.Name) and e.id not in out:
                         out.append(e.id)
             if isinstance(n, ast.Expr) and isinstance(n.value, ast.Call) and isinstance(n.value.func, ast.Attribute) \
-                    and n.value.func.attr in ("append", "pop", "add") and isinstance(n.value.func.value, ast.Name):
+                    and n.value.func.attr in ("append", "pop", "add", "sort") and isinstance(n.value.func.value, ast.Name):
                 if n.value.func.value.id not in out:
                     out.append(n.value.func.value.id)
     return out
